@@ -116,12 +116,14 @@ def remote_shard(task):
           if target == 'check_early_stopping':
             c08.run_op(dep, ('suggest', 1, 'a'))
           calls0 = dep.env.suggest_calls + dep.env.stop_calls + dep.env.factory_calls
+          pol0, fac0 = dep.env.suggest_calls + dep.env.stop_calls, dep.env.factory_calls
           dep.env.reset()
           for k, v in fault.items():
             setattr(dep.env, k, v)
           failing = ('suggest', 2, 'a') if target == 'suggest' else ('check_early_stopping', 1)
           o1 = c08.run_op(dep, failing)
           held = svc.held_locks(dep.servicer)
+          invoked1 = max(dep.env.suggest_calls + dep.env.stop_calls - pol0, dep.env.factory_calls - fac0)   # policy built / policy asked
           reached1 = (dep.env.suggest_calls + dep.env.stop_calls + dep.env.factory_calls) > calls0
           dep.env.reset()
           calls1 = dep.env.suggest_calls + dep.env.stop_calls + dep.env.factory_calls
@@ -136,6 +138,8 @@ def remote_shard(task):
           def V(clause, text):
             sig = 'C06|remote:%s|%s|%s|%s' % (clause, target, sorted(fault)[0], mode)
             vios.setdefault(sig, {'sig': sig, 'desc': '[%s] prefix %s fault %s: %s' % (who, prefix, fk, text), 'case': {'remote': True}})
+          if invoked1 > 1:
+            V('algorithm-invoked-more-than-once', 'one %s request invoked the algorithm %d times (the failure was %s)' % (target, invoked1, 'reported' if o1[0] == 'exc' else 'NOT reported: ' + str(o1)[:80]))
           if held:
             V('lock-held-after-failure', 'the failing %s returned %s and left %s held' % (target, str(o1)[:80], ', '.join(held)))
           if reached1 and o1[0] != 'exc':
@@ -171,7 +175,8 @@ def run(ctx):
     cov['exhaustive'] = cov['exhaustive'] and c['exhaustive']
     c['cfg'] = cfg
     cov['runs'].append(c)
-  faults = [{'fail_suggest': 'RuntimeError'}, {'fail_suggest': 'KeyError'}, {'fail_factory': 'ValueError'}, {'fail_stop': 'RuntimeError'}, {'fail_stop': 'ScriptedError'}]
+  faults = [{'fail_suggest': 'RuntimeError'}, {'fail_suggest': 'KeyError'}, {'fail_factory': 'ValueError'}, {'fail_stop': 'RuntimeError'}, {'fail_stop': 'ScriptedError'},
+            {'fail_suggest': 'RuntimeError', 'fail_once': True}, {'fail_stop': 'RuntimeError', 'fail_once': True}]       # transient: the first invocation only
   rdeps = [('grpc', 'ram'), ('pythia', 'ram')] if ctx.quick else [('grpc', 'ram'), ('pythia', 'ram'), ('grpc', 'sql'), ('pythia', 'sql')]
   rn = 0
   for r in ctx.pmap('remote_shard', [{'deployments': [d], 'faults': faults} for d in rdeps]):
